@@ -12,7 +12,7 @@
 (* ("data": evaluated content differs, "flags": only merge flags differ,    *)
 (* "err": error class / success differs) and printed with the trace id.     *)
 (***************************************************************************)
-EXTENDS AyBuild, Props_C02, Props_C03, Props_C04, Props_C05, Props_C15, IOUtils, TLCExt
+EXTENDS AyBuild, Props_C02, Props_C03, Props_C04, Props_C05, Props_C08, Props_C15, IOUtils, TLCExt
 
 CONSTANT Prop   \* which property's declarative formula is evaluated on the logged outcomes
 
@@ -128,6 +128,8 @@ PropVerdict ==
       [] Prop = "C04" -> IF ~C04_Judged(HistDocs, louts) THEN "outside"
                          ELSE IF C04_Holds(HistDocs, louts) THEN "holds" ELSE "violated"
       [] Prop = "C05" -> IF C05_TraceHolds(louts, RelOuts) THEN "holds" ELSE "violated"
+      [] Prop = "C08" -> IF ~C08_Judged(HistDocs, louts) THEN "outside"
+                         ELSE IF C08_Holds(HistDocs, louts) THEN "holds" ELSE "violated"
       [] Prop = "C15" -> IF ~C15_InDomain(HistDocs) THEN "outside"
                          ELSE IF C15_TraceHolds(louts, RelOuts) THEN "holds" ELSE "violated"
       [] OTHER -> "none"
@@ -138,6 +140,7 @@ ModelVerdict ==
       [] Prop = "C03" -> IF C03_Holds(HistDocs, accs) THEN "holds" ELSE "violated"
       [] Prop = "C04" -> IF C04_Holds(HistDocs, accs) THEN "holds" ELSE "violated"
       [] Prop = "C05" -> IF C05_TraceHolds(accs, ModelRelOuts) THEN "holds" ELSE "violated"
+      [] Prop = "C08" -> IF C08_Holds(HistDocs, accs) /\ C08_ModelNames(HistDocs, accs) THEN "holds" ELSE "violated"
       [] Prop = "C15" -> IF ~C15_InDomain(HistDocs) \/ C15_TraceHolds(accs, ModelRelOuts) THEN "holds" ELSE "violated"
       [] OTHER -> "none"
 
